@@ -45,6 +45,9 @@ type Acct struct {
 	Pub  keys.PublicKey
 	Addr keys.Address
 	tm   ed25519.PrivKeyEd25519
+	// signWith, when set, signs instead of the repo's private-key handler (accounts of the other
+	// key algorithms built by the C04 engines sign with the libraries directly)
+	signWith func([]byte) []byte
 }
 
 func detKey(seed uint64, name string) ed25519.PrivKeyEd25519 {
@@ -71,6 +74,9 @@ func NewAcct(seed uint64, name string) *Acct {
 }
 
 func (a *Acct) Sign(msg []byte) []byte {
+	if a.signWith != nil {
+		return a.signWith(msg)
+	}
 	h, _ := a.Priv.GetHandler()
 	s, err := h.Sign(msg)
 	if err != nil {
